@@ -754,6 +754,9 @@ fn try_run_calculator(line: &str, capture: bool) -> Option<CommandResult> {
 }
 
 pub fn run_calculator(line: &str) -> Result<String, &str> {
+    if tools::nesting_depth(line, '(', ')') > tools::MAX_NESTING {
+        return Err("syntax error: parentheses nested too deeply");
+    }
     let parse_result = calculator::calculate(line);
     match parse_result {
         Ok(mut calc) => {
